@@ -3498,7 +3498,8 @@ Definition visit_post (m m' : dpm) (o : txout) (vis rem' : list nat) : Prop :=
       (ev = None \/ (ev = Some EvOffline /\ ev_peripheral (dm_events m') = Some (mkHandle j (pe_addr q), EvOffline)))) /\
   (o <> None -> exists js r q q' h pdu, rem' = js :: r /\ slot m js = Some q /\ slot m' js = Some q' /\
       p_transmit pa (dm_op m) q = Ok (q', PtxSend h pdu) /\
-      forall j, ~ In j vis -> j <> js -> slot m' j = slot m j) /\
+      (forall j, ~ In j vis -> j <> js -> slot m' j = slot m j) /\
+      (exists x, o = Some x /\ send_data bufsize h pdu = Ok x)) /\
   (o = None -> forall j, ~ In j vis -> slot m' j = slot m j) /\
   (ev_peripheral (dm_events m') = None -> forall j, In j vis -> exists q q', slot m j = Some q /\ slot m' j = Some q' /\
       p_transmit pa (dm_op m) q = Ok (q', PtxSkip None)) /\
@@ -3530,6 +3531,7 @@ Proof.
     split; [|split; [intro E; discriminate E|split; [intros _ j []|split; [intros _ E; discriminate E|intros hd0 ev0 E; discriminate E]]]].
     intros _. exists (hd_index hd), r, p, p1, h, pdu. split; [reflexivity|]. split; [exact Hsl|].
     split; [rewrite Hsl', Nat.eqb_refl; reflexivity|]. split; [exact Hp|].
+    split; [|exists o; split; [reflexivity|exact Hs]].
     intros j _ Hne. rewrite Hsl'. destruct (Nat.eqb_spec j (hd_index hd)); [contradiction|reflexivity].
   - destruct (cur_slot _ _ _ _ Hc Hg) as (r & Hr & Hsl & Hadr).
     destruct (put_cur_facts m hd p p1 Hsl) as (_ & Hcy & Hpr & _). rewrite Hc in Hcy. rewrite Hr in Hpr.
@@ -3583,7 +3585,7 @@ Proof.
     destruct Hnv as (Hnv & Hnr).
     assert (Hkeep : slot m' (hd_index hd) = Some p1).
     { destruct o as [x|].
-      - destruct (Hv5 ltac:(discriminate)) as (js & r0 & q & q' & h & pdu & Erem & _ & _ & _ & Hoth).
+      - destruct (Hv5 ltac:(discriminate)) as (js & r0 & q & q' & h & pdu & Erem & _ & _ & _ & Hoth & _).
         rewrite Hoth; [rewrite Hm2, Nat.eqb_refl; reflexivity|exact Hnv|].
         intro E. apply Hnr. rewrite Erem, E. left; reflexivity.
       - rewrite (Hv3 eq_refl _ Hnv), Hm2, Nat.eqb_refl. reflexivity. }
@@ -3596,10 +3598,11 @@ Proof.
         assert (Hne' : j <> hd_index hd) by (intro E; subst j; contradiction).
         destruct (Nat.eqb_spec j (hd_index hd)); [contradiction|]. rewrite Hop in H3.
         exists q, q', ev. auto.
-    + intros Ho. destruct (Hv5 Ho) as (js & r0 & q & q' & h & pdu & Erem & H1 & H2 & H3 & Hoth).
+    + intros Ho. destruct (Hv5 Ho) as (js & r0 & q & q' & h & pdu & Erem & H1 & H2 & H3 & Hoth & Hsd).
       assert (Hjs : js <> hd_index hd) by (intro E; apply Hnr; rewrite Erem, E; left; reflexivity).
       rewrite Hm2 in H1. destruct (Nat.eqb_spec js (hd_index hd)); [contradiction|]. rewrite Hop in H3.
       exists js, r0, q, q', h, pdu. split; [exact Erem|]. split; [exact H1|]. split; [exact H2|]. split; [exact H3|].
+      split; [|exact Hsd].
       intros j Hj Hne'. assert (Hne2 : j <> hd_index hd) by (intro E; apply Hj; left; symmetry; exact E).
       rewrite Hoth; [|intro X; apply Hj; right; exact X|exact Hne'].
       rewrite Hm2. destruct (Nat.eqb_spec j (hd_index hd)); [contradiction|reflexivity].
@@ -4308,7 +4311,7 @@ Proof.
     pose proof Hreq as (f0 & Hstd & _). destruct (std_request_classify _ _ _ _ _ _ _ Hstd) as (_ & Hda & _).
     assert (Hse : step_event t = None) by (unfold step_event; cbn; rewrite Hev; reflexivity).
     (* not the end of the pass; the sender is the head of what remains *)
-    destruct (V5 ltac:(discriminate)) as (js & r & qs & qs' & h2 & pdu2 & Erem & Hqs & Hqs' & Hps & Hoth).
+    destruct (V5 ltac:(discriminate)) as (js & r & qs & qs' & h2 & pdu2 & Erem & Hqs & Hqs' & Hps & Hoth & _).
     assert (Encc : step_cc t = false).
     { destruct (step_cc t) eqn:E; [|reflexivity]. destruct (Hccocc eq_refl) as (X & _). discriminate X. }
     rewrite Encc in Hrem.
